@@ -38,6 +38,15 @@ pub const C08_SIGS: &[(&str, &str, &str, &str)] = &[
     // more than 16 flat parameters (passed through memory) with payload-carrying variants among them
     ("flat17-opt", "", "a0: u64, a1: u64, a2: u64, a3: u64, a4: u64, a5: u64, a6: u64, a7: u64, a8: u64, a9: u64, a10: u64, a11: u64, a12: u64, a13: u64, a14: u64, a15: u64, tail: option<u64>", "u64"),
     ("flat17-var", "", "a0: u64, a1: u64, a2: u64, a3: u64, a4: u64, a5: u64, a6: u64, a7: u64, a8: u64, a9: u64, a10: u64, a11: u64, a12: u64, a13: u64, r: result<string, u32>, o: option<list<u8>>", "u32"),
+    // indirect parameters AND a result through a return pointer: both use the import's return area
+    ("flat17-ret2", "", "a0: u64, a1: u64, a2: u64, a3: u64, a4: u64, a5: u64, a6: u64, a7: u64, a8: u64, a9: u64, a10: u64, a11: u64, a12: u64, a13: u64, a14: u64, a15: u64, a16: u64", "tuple<u32, u32>"),
+    // a result-typed parameter passed flat (at most 4 core values) whose arms own different memory
+    ("res-flat", "", "r: result<string, list<u32>>", "u32"),
+    ("res-flat2", "", "r: result<list<u64>, string>, x: u8", "u8"),
+    // own handles inside tuples that live in memory; borrows below the top level
+    ("own-tuple", "resource thing { constructor(a: u32); }", "l: list<tuple<u32, thing>>, t: tuple<thing, u8>", "u32"),
+    ("borrow-nested", "resource thing { constructor(a: u32); }", "o: option<borrow<thing>>, r: result<borrow<thing>, u32>", "u32"),
+    // (`list<borrow<thing>>` as an export parameter: the unmodified generator emits code that does not compile - E0506)
     // borrows of an imported resource lent to the export: dropped before task.return / before returning
     ("borrow", "resource thing { constructor(a: u32); }", "b: borrow<thing>, n: u32", ""),
     ("borrow-ret", "resource thing { constructor(a: u32); }", "b: borrow<thing>, c: borrow<thing>, l: list<u8>", "u32"),
@@ -82,6 +91,7 @@ interface imp {
   inspect: func(a: borrow<thing>, b: borrow<thing>, t: tuple<u32, borrow<thing>>) -> u32;
   pass: func(h: holder) -> result<holder, thing>;
   annotate: func(e: error-context, o: option<error-context>) -> result<u32, error-context>;
+  tally-maps: func(l: list<map<u32, u64>>, o: option<map<string, u32>>, r: result<map<u32, u64>, u8>) -> u32;
 }
 
 interface exp {
